@@ -19,17 +19,21 @@ class LSet(set):
     "a set owned by the interpreted code"
 class CacheM(SymVal):
     "a BranchCache (dict subclass): branch token -> value"
-    def __init__(s, **attrs): s.d = {}; s.attrs = attrs
+    def __init__(s, **attrs): s.d = {}; s.attrs = attrs; s.keys = {}
+    def put(s, k, v): s.d[id(k)] = v; s.keys[id(k)] = k
     def sym_getitem(s, it, k):
         if id(k) in s.d: return s.d[id(k)]
         raise PyExc(KeyError, (k,))
-    def sym_setitem(s, it, k, v): s.d[id(k)] = v
+    def sym_setitem(s, it, k, v): s.d[id(k)] = v; s.keys[id(k)] = k
     def sym_delitem(s, it, k):
         if id(k) in s.d: del s.d[id(k)]
         else: raise PyExc(KeyError, (k,))
     def sym_contains(s, it, k): return id(k) in s.d
     def sym_getattr(s, it, name):
         if name in s.attrs: return s.attrs[name]
+        if name in ('items', 'keys', 'values') and all(i in s.keys for i in s.d):      # dict views of the cache (branches put with their key object)
+            pairs = [(s.keys[i], v) for i, v in s.d.items()]
+            return Contract(lambda it: {'items': pairs, 'keys': [k for k, _ in pairs], 'values': [v for _, v in pairs]}[name], f'dict.{name}')
         raise Outside(f'helper.{name}')
     def sym_call(s, it, args, kw):
         return s.attrs['__call__'](it, *args)
@@ -110,16 +114,26 @@ def helper_obligations(ctx, prefix):
         # ---- release / gc
         fr_ = H.FilterNodeCache.__dict__['release']; fir = source.of_function(fr_); note(fir)
         fg = H.FilterNodeCache.__dict__['gc']; fig = source.of_function(fg); note(fig)
-        b, n, m = Tok('b'), Tok('n'), Tok('m')
+        b, n, m = Holder(parent=None), Tok('n'), Tok('m')
         class GC(CacheM):
             def sym_getattr(s, it, name):
                 if name == '_garbage': return s.garbage
                 return super().sym_getattr(it, name)
-        g = GC(); g.garbage = LSet(); g.d[id(b)] = LSet([n, m])
+        g = GC(); g.garbage = LSet(); g.put(b, LSet([n, m]))
         it.call_source(fir, fr_, H.FilterNodeCache, [g, n, b], {})
         if g.d[id(b)] != {n, m} or len(g.garbage) != 1: bad.append('release must only queue')
         it.call_source(fig, fg, H.FilterNodeCache, [g], {})
         if g.d[id(b)] != {m} or g.garbage: bad.append('gc removes exactly the released entries')
+        # frame of gc: with other branches in the cache (a copy made from b before or after the release, an unrelated branch), only the
+        # released (branch, node) pairs leave; what a sibling holds is its own
+        b = Holder(parent=None); sib = Holder(parent=b); other = Holder(parent=None)
+        g = GC(); g.garbage = LSet()
+        g.put(b, LSet([n, m])); g.put(sib, LSet([n, m])); g.put(other, LSet([n]))
+        it.call_source(fir, fr_, H.FilterNodeCache, [g, n, b], {})
+        it.call_source(fig, fg, H.FilterNodeCache, [g], {})
+        if g.d[id(b)] != {m}: bad.append('gc removes the released entry from its branch')
+        if g.d[id(sib)] != {n, m}: bad.append('gc took a node away from a branch copied from the releasing branch (only the released (branch, node) pairs may leave)')
+        if g.d[id(other)] != {n}: bad.append('gc took a node away from an unrelated branch')
         # ---- BranchCache.after_branch_add: a fork copies (not aliases) the parent's value; a root branch gets a fresh value
         for has_parent in (True, False):
             p = Tok('parent'); bnew = Holder(parent=(p if has_parent else None))
@@ -297,6 +311,22 @@ def replay_listeners(r):
     from pyvc.par import hard_timeout, HardTimeout
     args = ['e:MLa:LAKMKbANbNbKMcMdMMNa', 'a:AMbMc:LAdMe', 'b:AaMb:LMc', 'Na:AMKabMc:LAMdMe', 'c:AKMaMbMMc:LLd']
     out = []
+    # releasing a node on one branch must not take it from the branch copied from it (FilterNodeCache.release / gc on the real class)
+    try:
+        from pytableaux.proof import anode
+        t = Tableau('S5')
+        b = t.branch(); b.append(anode(0, 1))
+        c = t.branch(b)
+        for rule in t.rules:
+            for hcls, h in rule.helpers.items():
+                if isinstance(h, H.FilterNodeCache) and b in h and c in h:
+                    shared = [n for n in h[b] if n in h[c]]
+                    if not shared: continue
+                    h.release(shared[0], b); h.gc()
+                    if shared[0] not in h[c]: out.append(f'S5 {type(rule).__name__}[{hcls.__name__}]: releasing a node on a branch removed it from the branch copied from it')
+                    if shared[0] in h[b]: out.append(f'S5 {type(rule).__name__}[{hcls.__name__}]: gc left the released node')
+    except Exception as e: out.append(f'release/gc scenario: {type(e).__name__}: {e}')
+    if out: return dict(reproduced=True, detail='; '.join(out[:3]))
     for L in ('D', 'K', 'T', 'S4', 'KFDE', 'S5'):
         for a in args:
             try:
